@@ -1657,6 +1657,14 @@ class Interp:
             if not (_is_conc(atol) and atol == 0):
                 rhs = d.add(self.lift(atol), rhs)
             return self._mask(d.cmp("<=", lhs, rhs))
+        if base in ("min", "max", "amin", "amax") and isinstance(args[0] if args else None, (list, tuple)) and len(args[0]) >= 2 and base not in self.np_hooks \
+                and ((len(args) == 2 and args[1] == 0 and not kwargs) or (len(args) == 1 and set(kwargs) == {"axis"} and kwargs["axis"] == 0)) \
+                and all(self.dom.is_value(x) or _is_conc(x) for x in args[0]):
+            # np.min((a, b), 0): the second POSITIONAL argument is the axis -- the entry-wise minimum of a and b (0 is not a candidate)
+            r = args[0][0]
+            for x in args[0][1:]:
+                r = self.binary("minimum" if "min" in base else "maximum", r, x, ln)
+            return r
         if base in ("min", "max", "amin", "amax") and len(args) == 1 and isinstance(args[0], (list, tuple)) and len(args[0]) >= 2 and "axis" not in kwargs \
                 and any(self.dom.is_value(x) and not _is_conc(x) for x in args[0]):
             e = AnalysisError("%s:%d np.%s of several arrays without axis" % (func.qualname, ln, base))
